@@ -60,7 +60,10 @@ class SkipRmsNormFusion(pattern.RewriteRuleClassBase):
         bindings: dict[str, Dim] = {}
 
         def no_match(val: ir.Value, dims: Sequence[str]) -> bool:
-            return not _fusion_utils.check_shape_bool(bindings, val, dims)
+            # input and skip are the operands of one Add: their unknown dimensions are taken to be equal
+            return not _fusion_utils.check_shape_bool(
+                bindings, val, dims, unknown_dims_match=True
+            )
 
         if no_match(input, ["B", "S", "D"]):
             return check_result.fail(
@@ -184,7 +187,10 @@ class SkipLayerNormFusion(pattern.RewriteRuleClassBase):
         bindings: dict[str, Dim] = {}
 
         def no_match(val: ir.Value, dims: Sequence[str]) -> bool:
-            return not _fusion_utils.check_shape_bool(bindings, val, dims)
+            # input and skip are the operands of one Add: their unknown dimensions are taken to be equal
+            return not _fusion_utils.check_shape_bool(
+                bindings, val, dims, unknown_dims_match=True
+            )
 
         if no_match(input, ["B", "S", "D"]):
             return check_result.fail(
